@@ -574,7 +574,7 @@ func (p *cparser) expect(s string) error {
 
 func (p *cparser) parseQuant() (*CExpr, error) {
 	t := p.peek()
-	if t.k == "id" && (t.s == "forall" || t.s == "exists") {
+	if t.k == "id" && (t.s == "forall" || t.s == "exists" || t.s == "table") {
 		p.next()
 		var vars []CVar
 		for {
@@ -633,7 +633,7 @@ func (p *cparser) parseImp() (*CExpr, error) {
 		p.next()
 		// right assoc; allow quantifier on the right
 		var b *CExpr
-		if t := p.peek(); t.k == "id" && (t.s == "forall" || t.s == "exists") {
+		if t := p.peek(); t.k == "id" && (t.s == "forall" || t.s == "exists" || t.s == "table") {
 			b, err = p.parseQuant()
 		} else {
 			b, err = p.parseImp()
@@ -679,7 +679,7 @@ func (p *cparser) parseBinLevel(ops []string, sub func() (*CExpr, error)) (*CExp
 		}
 		p.next()
 		var b *CExpr
-		if t := p.peek(); t.k == "id" && (t.s == "forall" || t.s == "exists") && (found == "&&" || found == "||") {
+		if t := p.peek(); t.k == "id" && (t.s == "forall" || t.s == "exists" || t.s == "table") && (found == "&&" || found == "||") {
 			b, err = p.parseQuant()
 		} else {
 			b, err = sub()
